@@ -107,6 +107,11 @@ pub fn exercise<X: Transport>(t: &mut X, set_offered: &dyn Fn(u64), set_isr: &dy
         let r = t.get_status();
         op_end(json!({"vl": limbs(r.bits() as u64, 2)}));
     }
+    // second initialisation of the same transport: the reset above made a legacy device forget
+    // the page size, so it has to be told again before any queue is set up
+    op("set_guest_page_size", json!({"v": 4096}));
+    t.set_guest_page_size(4096);
+    op_end(json!({}));
     // (registers hold 32 bits on MMIO, 8 on PCI: the setter truncates as the device would)
     for isr in [0u32, 1, 2, 3, 4, 5, 0x80, 0xfe, 0x8000_0000, 0xffff_fffc, 0xffff_ffff] {
         set_isr(isr);
